@@ -22,7 +22,10 @@
      App.Cleanup (rs.Stop, closes a     s_cleaned; a second Cleanup panics (close of a closed
        channel)                           channel), Cleanup of a never prepared App panics (nil)
      actormodule's package var system   s_live: a system exists and is not shut down
-     ClusterModule.provider             s_half: modules whose provider exists but was never initialised
+     ClusterModule.provider             s_prov: modules whose provider is not nil; s_half: those whose
+                                        provider was never initialised (StartMember failed in init)
+     the etcd operations under the      e_faults: which of them fail (fault); each step of
+       cluster module                     ClusterModule.Start / Stop is a parameter of its program
 
    Go panics are values: [ERaise] (raised by a module, recovered by ModList.Start/Stop),
    [EAbort] (a panic raised inside a finish callback unwinds to the innermost module frame,
@@ -91,22 +94,54 @@ Definition actor_start_prog_unrepaired (info_ok listen_ok : bool) : list stmt :=
 Definition actor_stop_prog (live : bool) : list stmt :=
   [ If (negb live) [Panic]; Do (Next true) ].
 
-(* node/modules/cluster/cluster.go.  enable: cfg.Enable; new_ok: etcd.NewWithConfig err == nil;
-   member_ok: provider.StartMember err == nil.  Repaired code
-   (hooks/C11-fix-cluster-start-return.patch): the last Return was missing (F5). *)
-Definition cluster_start_prog (enable new_ok member_ok : bool) : list stmt :=
+(* node/modules/cluster/cluster.go with node/cluster/clusterproviders/etcd (StartMember and
+   Shutdown inlined).  Every step that can fail is an explicit parameter:
+     enable        cfg.Enable (false: self cluster, no provider)
+     new_ok        etcd.NewWithConfig err == nil (clientv3.New accepts the endpoint)
+     init_ok       StartMember -> init: the node address splits into host:port
+     fetch_ok      StartMember -> fetchNodes: the Get succeeds and every listed value is a Node
+     watch_ok      StartMember -> startWatching: the goroutine's watch stream comes up (if not it
+                   logs, records clusterError and tries again; Start is not told)
+     register_ok   StartMember -> registerService: lease Grant and Put succeed
+     keepalive_ok  StartMember -> startKeepAlive: the goroutine's Grant / Put / keep-alive stream
+                   work (if not it sleeps and tries again; Start is not told)
+   StartMember returns the error of the first failing synchronous step; Start reports it.
+   Repaired code (hooks/C11-fix-cluster-start-return.patch): the Return after the StartMember
+   failure was missing (F5). *)
+Inductive mstep := MInit | MFetch | MRegister.
+Definition start_member (init_ok fetch_ok watch_ok register_ok keepalive_ok : bool) : option mstep :=
+  if negb init_ok then Some MInit
+  else if negb fetch_ok then Some MFetch
+  else (* startWatching: a goroutine; watch_ok = false is its business *)
+    if negb register_ok then Some MRegister
+    else (* startKeepAlive: a goroutine; keepalive_ok = false is its business *) None.
+Definition failed (x : option mstep) : bool := match x with Some _ => true | None => false end.
+
+Definition cluster_start_prog (enable new_ok init_ok fetch_ok watch_ok register_ok keepalive_ok : bool) : list stmt :=
   [ If (negb enable) [Next true; Return];
     If (negb new_ok) [Next false; Return];
-    If (negb member_ok) [Next false; Return];
+    If (failed (start_member init_ok fetch_ok watch_ok register_ok keepalive_ok)) [Next false; Return];
     Do (Next true) ].
-Definition cluster_start_prog_unrepaired (enable new_ok member_ok : bool) : list stmt :=
+Definition cluster_start_prog_unrepaired (enable new_ok init_ok fetch_ok watch_ok register_ok keepalive_ok : bool) : list stmt :=
   [ If (negb enable) [Next true; Return];
     If (negb new_ok) [Next false; Return];
-    If (negb member_ok) [Next false];
+    If (failed (start_member init_ok fetch_ok watch_ok register_ok keepalive_ok)) [Next false];
     Do (Next true) ].
-(* c.provider != nil -> provider.Shutdown(true).  half: the provider was created but
-   StartMember failed inside init, so provider.self is nil and Shutdown panics *)
-Definition cluster_stop_prog (half : bool) : list stmt := [ If half [Panic]; Do (Next true) ].
+(* Stop.  prov: c.provider != nil, then provider.Shutdown(true):
+     half          the provider was created but StartMember failed inside init, so provider.self
+                   is nil and Shutdown (getEtcdKey) panics
+     delete_ok     Shutdown -> deregisterService: the Delete succeeds (if not Shutdown returns the
+                   error, leaves the watch running, and Stop ignores it) *)
+Definition cluster_stop_prog (prov half delete_ok : bool) : list stmt :=
+  [ If (prov && half) [Panic];
+    If (prov && negb delete_ok) [];
+    Do (Next true) ].
+(* the slip that F5 was in Start, made in Stop: the Shutdown error is reported and control falls
+   through to the final next(true) (never in the repository; the monitor's reference mistake) *)
+Definition cluster_stop_prog_fallthrough (prov half delete_ok : bool) : list stmt :=
+  [ If (prov && half) [Panic];
+    If (prov && negb delete_ok) [Next false];
+    Do (Next true) ].
 
 (* ---- configuration ---- *)
 Inductive addr := AFree | ABusy | ABad.     (* node address: bindable / port in use / not host:port *)
@@ -115,24 +150,38 @@ Inductive mode :=
 | MApp (prepared : bool)  (* baseapp.App through LaunchAppWithMode / App.Stop *)
 | MNode.                  (* node App through StartNode / StopNode (node info present) *)
 Inductive kind := KScript (st sp : beh) | KWelcome | KActor | KCluster.
+(* the etcd operation that fails (harness/c11/etcdfake.go); several may be declared *)
+Inductive fault :=
+| FNew         (* etcd.NewWithConfig: the endpoint is rejected *)
+| FGet         (* fetchNodes: the Get fails *)
+| FGarbage     (* fetchNodes: a listed value does not deserialise *)
+| FWatch       (* startWatching: the first watch streams are cancelled by the server *)
+| FGrant       (* registerService: the lease Grant fails *)
+| FPut         (* registerService: the Put fails *)
+| FKaGrant     (* keepAliveForever: its Grant fails *)
+| FKaPut       (* keepAliveForever: its Put fails *)
+| FKaStream    (* keepAliveForever: the first keep-alive answer says the lease expired *)
+| FDelete.     (* Shutdown -> deregisterService: the Delete fails *)
 
 Inductive op :=
 | OMode (m : mode)                          (* declarations: collected from the whole list *)
 | OEnv (a : addr) (enable etcd : bool)
 | OMod (k : kind)
+| OFault (f : fault)
 | OStart | OStop
 | OFire (k : Z) (b : bool).
 
-Record env := { e_mode : mode; e_addr : addr; e_enable : bool; e_etcd : bool; e_mods : list kind }.
+Record env := { e_mode : mode; e_addr : addr; e_enable : bool; e_etcd : bool; e_faults : list fault; e_mods : list kind }.
 
 Definition env0 : env :=
-  {| e_mode := MList; e_addr := AFree; e_enable := false; e_etcd := false; e_mods := [] |}.
+  {| e_mode := MList; e_addr := AFree; e_enable := false; e_etcd := false; e_faults := []; e_mods := [] |}.
 
 Definition decl (e : env) (o : op) : env :=
   match o with
-  | OMode m => {| e_mode := m; e_addr := e_addr e; e_enable := e_enable e; e_etcd := e_etcd e; e_mods := e_mods e |}
-  | OEnv a en et => {| e_mode := e_mode e; e_addr := a; e_enable := en; e_etcd := et; e_mods := e_mods e |}
-  | OMod k => {| e_mode := e_mode e; e_addr := e_addr e; e_enable := e_enable e; e_etcd := e_etcd e; e_mods := e_mods e ++ [k] |}
+  | OMode m => {| e_mode := m; e_addr := e_addr e; e_enable := e_enable e; e_etcd := e_etcd e; e_faults := e_faults e; e_mods := e_mods e |}
+  | OEnv a en et => {| e_mode := e_mode e; e_addr := a; e_enable := en; e_etcd := et; e_faults := e_faults e; e_mods := e_mods e |}
+  | OMod k => {| e_mode := e_mode e; e_addr := e_addr e; e_enable := e_enable e; e_etcd := e_etcd e; e_faults := e_faults e; e_mods := e_mods e ++ [k] |}
+  | OFault f => {| e_mode := e_mode e; e_addr := e_addr e; e_enable := e_enable e; e_etcd := e_etcd e; e_faults := f :: e_faults e; e_mods := e_mods e |}
   | _ => e
   end.
 
@@ -140,24 +189,51 @@ Definition env_of (ops : list op) : env := fold_left decl ops env0.
 
 Definition info_ok (e : env) : bool := match e_mode e with MNode => true | _ => false end.
 Definition listen_ok (e : env) : bool := match e_addr e with ABusy => false | _ => true end.
-Definition member_ok (e : env) : bool := match e_addr e with ABad => false | _ => e_etcd e end.
+
+(* outcome of each step of the cluster module in this environment.  e_etcd: something answers on
+   the configured endpoint (false: the first request, the Get, does not succeed) *)
+Definition fault_eqb (a b : fault) : bool :=
+  match a, b with
+  | FNew, FNew | FGet, FGet | FGarbage, FGarbage | FWatch, FWatch | FGrant, FGrant | FPut, FPut
+  | FKaGrant, FKaGrant | FKaPut, FKaPut | FKaStream, FKaStream | FDelete, FDelete => true
+  | _, _ => false
+  end.
+Definition fails (e : env) (f : fault) : bool := existsb (fault_eqb f) (e_faults e).
+Definition new_ok (e : env) : bool := negb (fails e FNew).
+Definition init_ok (e : env) : bool := match e_addr e with ABad => false | _ => true end.
+Definition fetch_ok (e : env) : bool := e_etcd e && negb (fails e FGet) && negb (fails e FGarbage).
+Definition watch_ok (e : env) : bool := negb (fails e FWatch).
+Definition register_ok (e : env) : bool := negb (fails e FGrant) && negb (fails e FPut).
+Definition keepalive_ok (e : env) : bool :=
+  negb (fails e FKaGrant) && negb (fails e FKaPut) && negb (fails e FKaStream).
+Definition delete_ok (e : env) : bool := negb (fails e FDelete).
 
 (* behaviour of a module when it is entered *)
-Definition entry_beh (e : env) (fwd live half : bool) (k : kind) : beh :=
+Definition entry_beh (e : env) (fwd live prov half : bool) (k : kind) : beh :=
   match k with
   | KScript st sp => if fwd then st else sp
   | KWelcome => beh_of (if fwd then welcome_start_prog else welcome_stop_prog)
   | KActor => beh_of (if fwd then actor_start_prog (info_ok e) (listen_ok e) else actor_stop_prog live)
-  | KCluster => beh_of (if fwd then cluster_start_prog (e_enable e) true (member_ok e) else cluster_stop_prog half)
+  | KCluster => beh_of (if fwd then cluster_start_prog (e_enable e) (new_ok e) (init_ok e) (fetch_ok e) (watch_ok e)
+                                                         (register_ok e) (keepalive_ok e)
+                        else cluster_stop_prog prov half (delete_ok e))
   end.
 
-(* ClusterModule.provider of module i after the entry: Start assigns the provider before
-   StartMember; with an address that is not host:port StartMember fails inside init *)
-Definition init_fails (e : env) : bool := match e_addr e with ABad => e_enable e | _ => false end.
+(* ClusterModule.provider of module i after the entry: Start assigns the new provider before
+   StartMember; with an address that is not host:port StartMember fails inside init (the provider
+   stays half made).  Stop sets it to nil after Shutdown - unless Shutdown panicked *)
+Definition init_fails (e : env) : bool := e_enable e && new_ok e && negb (init_ok e).
 Definition entry_half (e : env) (fwd : bool) (i : Z) (half : list Z) (k : kind) : list Z :=
   match k with
   | KCluster => if fwd && init_fails e && negb (zmem i half) then i :: half else half
   | _ => half
+  end.
+Definition entry_prov (e : env) (fwd : bool) (i : Z) (prov half : list Z) (k : kind) : list Z :=
+  match k with
+  | KCluster =>
+      if fwd then (if e_enable e && new_ok e && negb (zmem i prov) then i :: prov else prov)
+      else if zmem i half then prov else filter (fun j => negb (j =? i)) prov
+  | _ => prov
   end.
 
 (* actormodule.system after the entry: Start assigns a fresh system before remote.Start,
@@ -201,7 +277,7 @@ Definition finish_effect (m : mode) (fwd succ : bool) (app : Z) (cleaned : bool)
 (* ---- one run: the work-list machine ---- *)
 Inductive act := ADo | ANx (i : Z) (b : bool) | AEnd (i : Z) (p : bool).
 
-Record bst := { b_idx : Z; b_app : Z; b_cleaned : bool; b_live : bool; b_half : list Z; b_caps : list (Z * Z) }.
+Record bst := { b_idx : Z; b_app : Z; b_cleaned : bool; b_live : bool; b_prov : list Z; b_half : list Z; b_caps : list (Z * Z) }.
 
 Section Burst.
   Variables (e : env) (r : Z) (fwd : bool).
@@ -224,21 +300,22 @@ Section Burst.
     | ANx i b =>
         if b then
           ({| b_idx := advance (b_idx s); b_app := b_app s; b_cleaned := b_cleaned s;
-              b_live := b_live s; b_half := b_half s; b_caps := b_caps s |}, ADo :: wl, [ENext r i true])
+              b_live := b_live s; b_prov := b_prov s; b_half := b_half s; b_caps := b_caps s |}, ADo :: wl, [ENext r i true])
         else (s, wl, [ENext r i false; EFin r false])   (* the App wrappers do nothing on failure *)
     | ADo =>
         if past_end (b_idx s) then
           let '(app, cl, pan) := finish_effect (e_mode e) fwd true (b_app s) (b_cleaned s) in
-          let s' := {| b_idx := b_idx s; b_app := app; b_cleaned := cl; b_live := b_live s; b_half := b_half s; b_caps := b_caps s |} in
+          let s' := {| b_idx := b_idx s; b_app := app; b_cleaned := cl; b_live := b_live s; b_prov := b_prov s; b_half := b_half s; b_caps := b_caps s |} in
           if pan then let '(wl', x) := unwind wl in (s', wl', [EFin r true; x])
           else (s', wl, [EFin r true])
         else if (b_idx s <? 0) || (nmods <=? b_idx s) then
           let '(wl', x) := unwind wl in (s, wl', [EIndexPanic r; x])
         else
           let k := nth (Z.to_nat (b_idx s)) (e_mods e) KWelcome in
-          let bh := entry_beh e fwd (b_live s) (zmem (b_idx s) (b_half s)) k in
+          let bh := entry_beh e fwd (b_live s) (zmem (b_idx s) (b_prov s)) (zmem (b_idx s) (b_half s)) k in
           ({| b_idx := b_idx s; b_app := b_app s; b_cleaned := b_cleaned s;
               b_live := entry_live e fwd (b_live s) k;
+              b_prov := entry_prov e fwd (b_idx s) (b_prov s) (b_half s) k;
               b_half := entry_half e fwd (b_idx s) (b_half s) k;
               b_caps := b_caps s ++ [(r, b_idx s)] |},
            map (ANx (b_idx s)) (calls_of bh) ++ AEnd (b_idx s) (panics_of bh) :: wl,
@@ -271,13 +348,13 @@ Definition weight (e : env) : nat := 2 + 2 * cmax (e_mods e).
 Definition fuel_for (e : env) : nat := 2 + length (e_mods e) * weight e.
 
 (* ---- the whole history ---- *)
-Record st := { s_runs : list (bool * Z); s_caps : list (Z * Z); s_app : Z; s_cleaned : bool; s_live : bool; s_half : list Z }.
+Record st := { s_runs : list (bool * Z); s_caps : list (Z * Z); s_app : Z; s_cleaned : bool; s_live : bool; s_prov : list Z; s_half : list Z }.
 
 Definition init (e : env) : st :=
   {| s_runs := []; s_caps := [];
      s_app := match e_mode e with MApp false => SState0 | _ => SPrepared end;
      s_cleaned := match e_mode e with MApp false => true | _ => false end;
-     s_live := false; s_half := [] |}.
+     s_live := false; s_prov := []; s_half := [] |}.
 
 Fixpoint upd_nth {A} (n : nat) (x : A) (l : list A) : list A :=
   match l, n with
@@ -287,19 +364,19 @@ Fixpoint upd_nth {A} (n : nat) (x : A) (l : list A) : list A :=
   end.
 
 Definition burst (e : env) (g : st) (r : Z) (fwd : bool) (idx : Z) (wl : list act) : st * list ev :=
-  let s0 := {| b_idx := idx; b_app := s_app g; b_cleaned := s_cleaned g; b_live := s_live g; b_half := s_half g; b_caps := s_caps g |} in
+  let s0 := {| b_idx := idx; b_app := s_app g; b_cleaned := s_cleaned g; b_live := s_live g; b_prov := s_prov g; b_half := s_half g; b_caps := s_caps g |} in
   let '(s1, evs) := exec e r fwd (fuel_for e) s0 wl in
   ({| s_runs := upd_nth (Z.to_nat r) (fwd, b_idx s1) (s_runs g); s_caps := b_caps s1;
-      s_app := b_app s1; s_cleaned := b_cleaned s1; s_live := b_live s1; s_half := b_half s1 |}, evs).
+      s_app := b_app s1; s_cleaned := b_cleaned s1; s_live := b_live s1; s_prov := b_prov s1; s_half := b_half s1 |}, evs).
 
 Definition set_app (g : st) (a : Z) : st :=
-  {| s_runs := s_runs g; s_caps := s_caps g; s_app := a; s_cleaned := s_cleaned g; s_live := s_live g; s_half := s_half g |}.
+  {| s_runs := s_runs g; s_caps := s_caps g; s_app := a; s_cleaned := s_cleaned g; s_live := s_live g; s_prov := s_prov g; s_half := s_half g |}.
 
 (* a new Filter call: index := 0 / len-1; doNow() *)
 Definition new_run (e : env) (g : st) (fwd : bool) : st * list ev :=
   let r := Z.of_nat (length (s_runs g)) in
   let g' := {| s_runs := s_runs g ++ [(fwd, first_idx e fwd)]; s_caps := s_caps g; s_app := s_app g;
-               s_cleaned := s_cleaned g; s_live := s_live g; s_half := s_half g |} in
+               s_cleaned := s_cleaned g; s_live := s_live g; s_prov := s_prov g; s_half := s_half g |} in
   burst e g' r fwd (first_idx e fwd) [ADo].
 
 Definition do_op (e : env) (g : st) (o : op) : st * list ev :=
